@@ -140,6 +140,10 @@ class D(Driver):
                 except Exception as e:
                     if events.is_harness_exc(e):
                         raise
+                    bump(res["counters"], "exception." + type(e).__name__)
+                    if not isinstance(e, (ValueError, ZeroDivisionError, OverflowError)):
+                        res["viol"].append(dict(rule="crash", sig=f"crash:arc_to_cubic:{type(e).__name__}", msg=f"arc_to_cubic{a} raised {type(e).__name__}: {e}",
+                                                replay={"kind": "arc", "args": a, "d": None}))
                 if res["sample"] is None and feat == "too_small":
                     res["sample"] = {"arc_to_cubic_args": a}
         else:
